@@ -33,6 +33,9 @@ CONTENTS = {
     "crlf_like": "a \\r\\n b",
     "leading_blank_lines": "\n\n\n\nafter blanks",
     "only_ws": "   \n   \n",
+    "unicode_trailing": "nbsp\xa0\nideographic\u3000\nformfeed\x0c\nthin\u2009\nend\xa0",
+    "usage_colon": "Usage:\n\n    prog FILE\n\nOptions:\n\n    -v  verbose\n",
+    "colon_blank_code": "if x:\n\n    y = 1\n",
 }
 PREFIXES = ["", "r", "b", "f", "rb", "rf"]
 
@@ -157,6 +160,21 @@ def features(value):
             "ws_only_lines": re.search(r"(^|\n)[ \t]+(\n|$)", value) is not None}
 
 
+def reference_stage(name, text):
+    """What the stage did on the unchanged tree, written down independently: the listed findings are about *these* text operations reaching into literals.
+    A stage that does anything else to a literal (other characters stripped, other blank lines removed) is not one of them."""
+    if name == "rmspace.format_str":
+        return re.sub(r"[ \t]+(?=\n|\Z)", "", text)  # blanks and tabs at the end of a physical line or of the text
+    if name == "expandtabs":
+        return text.expandtabs(4)
+    if name == "fixes.fix_too_many_blank_lines":
+        out = re.sub(r"(\n\s*){3,}\n", "\n" * 3, text)  # at most two blank lines anywhere
+        out = re.sub(r"(\n\s*){2,}\Z", "\n", out)  # none at the end
+        out = re.sub(r"(\n\s*){2,}(\n\s+)(?=[^\n\s])", r"\n\g<2>", out)  # at most one before an indented line
+        return out
+    return None
+
+
 # --------------------------------------------------------------------------------- worker side
 def judge_stage(name, before, after, res, origin, replay, extra=None):
     from .. import pipeline
@@ -181,6 +199,7 @@ def judge_stage(name, before, after, res, origin, replay, extra=None):
         detail["constants"] = [{"before": repr(x)[:120], "after": repr(y)[:120], **features(x)} for x, y in consts[:4]]
     else:
         detail["string_constants_only"] = False
+    detail["explained_by_reference"] = reference_stage(name, before) == after
     if extra:
         detail.update(extra)
     if len(res["violations"]) < 80:
